@@ -472,13 +472,42 @@ pub fn gen_workload(rng: &mut Rng, cfg: &GenCfg) -> Workload {
     while pool.len() < pool_n {
         // now and then an input whose byte length sits on a power of two (64 B .. 16 KiB): block-
         // wise or threshold-switched fast paths change behaviour exactly there
-        if cfg.long_inputs && rng.chance(1, 100) {
+        if cfg.long_inputs && rng.chance(1, 60) {
+            // 64 B .. 1 KiB mostly, up to 4 KiB (quick) / 16 KiB (thorough) now and then: a call on
+            // a 16 KiB input costs about a millisecond, a thousand times the usual
+            let k = if rng.chance(3, 4) { 6 + rng.usize_below(5) } else { 6 + rng.usize_below(if cfg.max_threads > 4 { 9 } else { 7 }) };
+            let boundary = 1usize << k;
+            if rng.chance(1, 2) {
+                // fault placement: an interesting two-part sequence laid exactly across the byte
+                // boundary 2^k (a base and its combining mark, a jamo pair, two spaces, a cased
+                // letter and a final sigma, an RTL letter and a digit, a virama and a joiner, or a
+                // multi-byte character whose own bytes straddle the boundary)
+                let pairs: [(&str, &str); 12] = [
+                    ("e", "\u{301}"), ("A", "\u{30a}"), ("\u{1e0b}", "\u{323}"), ("o\u{308}", "\u{304}"), (" ", " "), ("a", "\u{3a3}"),
+                    ("\u{5d0}", "1"), ("\u{ff21}", "\u{ff22}"), ("\u{915}\u{94d}", "\u{200d}"), ("l\u{b7}", "l"), ("\u{1100}", "\u{1161}"), ("", "\u{e9}"),
+                ];
+                let (first, second) = pairs[rng.usize_below(pairs.len())];
+                let straddle = if first.is_empty() { 1 } else { 0 }; // "" + 2-byte char: put its first byte before the boundary
+                let fill = boundary.saturating_sub(first.len() + straddle);
+                let filler = ["a", "ab", "x1", "Ab"][rng.usize_below(4)];
+                let mut s = String::new();
+                while s.len() + filler.len() <= fill {
+                    s.push_str(filler);
+                }
+                while s.len() < fill {
+                    s.push('a');
+                }
+                s.push_str(first);
+                s.push_str(second);
+                for _ in 0..rng.usize_below(4) {
+                    s.push_str(filler);
+                }
+                pool.push(s);
+                continue;
+            }
             let unit = gen_string(rng, &enabled);
             if !unit.is_empty() {
-                // 64 B .. 1 KiB mostly, up to 4 KiB (quick) / 16 KiB (thorough) now and then: a call on
-                // a 16 KiB input costs about a millisecond, a thousand times the usual
-                let k = if rng.chance(3, 4) { 6 + rng.usize_below(5) } else { 6 + rng.usize_below(if cfg.max_threads > 4 { 9 } else { 7 }) };
-                let target = (1usize << k) + rng.usize_below(5) - 2;
+                let target = boundary + rng.usize_below(5) - 2;
                 let mut s = String::new();
                 while s.len() + unit.len() <= target {
                     s.push_str(&unit);
